@@ -2,7 +2,7 @@
 import copy
 
 from harness import build, grammar, render, tlc
-from harness.common import CANARY_BASE, Report, import_hpl, rng, split_canaries, tier
+from harness.common import CANARY_BASE, keep, Report, import_hpl, rng, split_canaries, tier
 from harness.drive import call_parser, exc_name
 from harness.project import project
 
@@ -75,6 +75,8 @@ def run(replay=None):
         tb = rnd.choice(TIMES)
         if tb:
             text += ' within ' + tb
+        if not keep(text):
+            continue
         o, p = call_parser('property', text)
         if o != 'ast':
             rep.skip('rejected:' + o)
